@@ -9,18 +9,13 @@
 //   * `pop` removes the top model; `difference_iter().filter(|x| x.label() != v)` (here `verif_implied_except(v)`)
 //     yields exactly the literals of the top model that are not in the model below, except the one on v.
 // The formula's truth function is `csem_of(id, env)` for the solver's formula id; it is uninterpreted.
-pub type PM = Map<u64, bool>;
-
-pub open spec fn agrees(env: Env, m: PM) -> bool { forall|x: u64| #[trigger] m.contains_key(x) ==> env(x) == m[x] }
-pub open spec fn submodel(a: PM, b: PM) -> bool { forall|x: u64| #[trigger] a.contains_key(x) ==> b.contains_key(x) && b[x] == a[x] }
-pub open spec fn total(m: PM, nv: nat) -> bool { forall|x: u64| (x as nat) < nv ==> #[trigger] m.contains_key(x) }
+//%% include prelude/satiface.rs
 pub uninterp spec fn csem_of(id: int, env: Env) -> bool;
+/// the truth function of the solver's formula
+pub open spec fn sem_of(id: int) -> Sem { |env: Env| csem_of(id, env) }
 /// A-reshash: the 128-bit residual hash of a solver state is a function of its top model
 pub uninterp spec fn hash_of(id: int, m: PM) -> u128;
-/// a model in which every variable is assigned satisfies the formula (otherwise the solver would have reported a conflict)
-pub open spec fn sound_model(id: int, nv: nat, m: PM) -> bool {
-    total(m, nv) ==> forall|env: Env| #[trigger] tr(env) ==> (agrees(env, m) ==> csem_of(id, env))
-}
+pub open spec fn sound_model(id: int, nv: nat, m: PM) -> bool { sound_model_g(sem_of(id), nv, m) }
 
 //%% extract src/repr/unit_prop.rs :: - :: enum DecisionResult
 //%% end
@@ -28,15 +23,11 @@ pub open spec fn sound_model(id: int, nv: nat, m: PM) -> bool {
 /// what `decide(lit)` establishes when it does not report UNSAT: m2 is the pushed model
 #[verifier::opaque]
 pub open spec fn decide_ok(id: int, m0: PM, lit: Literal, sat: bool, m2: PM) -> bool {
-    &&& submodel(m0, m2)
-    &&& m2.contains_key(lit.lbl.0) && m2[lit.lbl.0] == lit.pol
-    // propagation is sound: every model of the formula that extends m0 + lit extends m2
-    &&& forall|env: Env| #[trigger] tr(env) ==> (agrees(env, m0) && env(lit.lbl.0) == lit.pol && csem_of(id, env) ==> agrees(env, m2))
-    &&& (sat ==> forall|env: Env| #[trigger] tr(env) ==> (agrees(env, m2) ==> csem_of(id, env)))
+    decide_ok_g(sem_of(id), m0, lit.lbl.0, lit.pol, sat, m2)
 }
 #[verifier::opaque]
 pub open spec fn decide_unsat(id: int, m0: PM, lit: Literal) -> bool {
-    forall|env: Env| #[trigger] tr(env) ==> (agrees(env, m0) && env(lit.lbl.0) == lit.pol ==> !csem_of(id, env))
+    decide_unsat_g(sem_of(id), m0, lit.lbl.0, lit.pol)
 }
 /// the literals handed to conjoin_implied: exactly the assignments of `top` that are not in `prev`, except the one on v
 #[verifier::opaque]
